@@ -4,24 +4,33 @@ wrap-around on array assignment / in-place addition.
 -/
 namespace BB
 
-inductive W | u8 | u16 | u32 | u64
+/-- the four unsigned NumPy widths, and `big` = a Python-object (unbounded) counter: the real
+`min_safe_uint` raises `ValueError` for values ≥ 2^64 (unreachable in practice); the model goes
+on with an unbounded counter instead, so that no arithmetic ever wraps beyond `u64` -/
+inductive W | u8 | u16 | u32 | u64 | big
   deriving DecidableEq, Repr, Inhabited
 
+/-- bit width; `big` has none: the value 128 is only a sentinel that orders it above `u64`
+(`wrap` never uses it) -/
 def W.bits : W → Nat
-  | .u8 => 8 | .u16 => 16 | .u32 => 32 | .u64 => 64
+  | .u8 => 8 | .u16 => 16 | .u32 => 32 | .u64 => 64 | .big => 128
 
 def W.name : W → String
-  | .u8 => "uint8" | .u16 => "uint16" | .u32 => "uint32" | .u64 => "uint64"
+  | .u8 => "uint8" | .u16 => "uint16" | .u32 => "uint32" | .u64 => "uint64" | .big => "object"
 
 /-- `min_safe_uint`; `none` = the `ValueError` for values that need a Python bigint -/
 def minSafe? (n : Nat) : Option W :=
   if n < 2^8 then some .u8 else if n < 2^16 then some .u16
   else if n < 2^32 then some .u32 else if n < 2^64 then some .u64 else none
 
-/-- total version used inside the tree model (theorems carry `n < 2^64`) -/
-def minSafe (n : Nat) : W := (minSafe? n).getD .u64
+/-- total version used inside the tree model: unbounded counter beyond the `u64` range -/
+def minSafe (n : Nat) : W :=
+  if n < 2^8 then .u8 else if n < 2^16 then .u16
+  else if n < 2^32 then .u32 else if n < 2^64 then .u64 else .big
 
 /-- what an unsigned array element of width `w` holds after assigning `x` -/
-def wrap (w : W) (x : Nat) : Nat := x % 2 ^ w.bits
+def wrap : W → Nat → Nat
+  | .big, x => x
+  | w, x => x % 2 ^ w.bits
 
 end BB
